@@ -47,6 +47,21 @@ def pick_name(rng, mfrs=(1851, 1855, 137, 229), hostile=True):
     return v
 
 
+REFUSED_NAMES: set = set()
+
+
+def refused_name(rng, mfrs=(1851, 1855, 137, 229)):
+    """A NAME the library refuses like any frame with an out-of-range field (a numeric sub-field holds the code just below
+    all-ones): decoding it raises, and it changes nothing - the address keeps whatever identity it had."""
+    base = dict(unique=rng.randrange((1 << 21) - 3), mfr=rng.choice(list(mfrs)), inst_lo=rng.randrange(6), inst_hi=rng.randrange(30),
+                function=rng.choice([130, 140, 150]), dev_class=rng.choice([25, 60, 75]), sys_inst=rng.randrange(14), industry=4, aac=1)
+    k_ = rng.choice(["sys_inst", "inst_hi", "unique", "sys_inst"])
+    base[k_] = {"sys_inst": 14, "inst_hi": 30, "unique": 0x1FFFFE}[k_]
+    v = claim_name(**base)
+    REFUSED_NAMES.add(v)
+    return v
+
+
 def related_addresses(src: int, dst: int = 255):
     """Addresses other than `src` that look like it or like `dst` to careless code: decimal prefixes and extensions of
     their spellings, +-1, the destination itself (when it is a unicast address)."""
